@@ -221,8 +221,10 @@ namespace rkcommon {
     {
       const size_t size = count * sizeof(T);
 
-      // (not 'cursor + size > ...', which wraps around for huge counts)
-      if (count > (buffer->size() - cursor) / sizeof(T)) {
+      // (not 'cursor + size > ...', which wraps around for huge counts; the
+      // cursor can be beyond the end if the buffer shrank under the reader)
+      if (cursor > buffer->size()
+          || count > (buffer->size() - cursor) / sizeof(T)) {
         throw std::runtime_error("Attempt to read past end of BufferReader!");
       }
 
